@@ -56,7 +56,7 @@ func TestCheck(t *testing.T) {
 				r.Extra("devices_"+dbKind, w.Devs)
 			}
 		}
-		runConcurrent(r, round)
+		runConcurrent(r, t, round)
 	}
 
 	// Coverage gates: the monitor must have seen every kind of decision.
